@@ -432,8 +432,20 @@ def monitorOp (prop : String) (seen : Seen) (v : OpView) (next : Option OpView) 
         | ["orm", _, j] => gone := gone ++ [(j.toNat?).getD 99]
         | _ => if tokClass t = "o" && gone.any (fun j => t.startsWith s!"o{j}:") then bad := true
       return bad
+    -- "of each listing's text": a listing call that returned tells every registered observer its text exactly once (the text
+    -- the call returns), and no other call produces a listing event
+    let listEvents := impl.filter fun t => tokClass t = "o" && (t.splitOn ":").getD 1 "" = "l"
+    let listingBad : Bool :=
+      if op.name = "list" && returned then
+        let text := (ret.splitOn ":").dropLast.getLast?.getD ""        -- ret:list:<n>:<replies...>:<hex text>:<hex lines>
+        let want := seen.observers.map fun o => s!"o{o}:l:{text}"
+        -- a refused listing (negative result) has no data connection and hence no event
+        if retPositive ret = some true then listEvents != want else !(listEvents.isEmpty || listEvents == want)
+      else if op.name = "list" then false
+      else !listEvents.isEmpty
     if removedTold then some "removed-observer-was-still-notified"
     else if impl.any (·.startsWith "orm:") then none       -- the expectation changes in mid-call: left to the correspondence
+    else if listingBad then some "listing-events-differ-from-the-listing-returned"
     else
     -- the observers' events, in wire order, are exactly the transcript
     let obs := seen.observers
